@@ -79,6 +79,78 @@ theorem cutOver_bound (size ol : Nat) (r : Resp) (hc : Contract r) :
   · simp only [h0, ↓reduceIte, List.take_zero, sum]
     omega
 
+/-! ## Nothing is dropped from a message that fits compressed -/
+
+/-- Every record has a positive length (a record is at least 11 bytes on the wire). -/
+def AllPos (xs : List Nat) : Prop := ∀ x ∈ xs, 0 < x
+
+theorem sum_zero_of_pos (xs : List Nat) (hp : AllPos xs) (h : sum xs = 0) : xs = [] := by
+  cases xs with
+  | nil => rfl
+  | cons x xs =>
+    have := hp x (by simp)
+    simp only [sum] at h
+    omega
+
+/-- A section whose records all fit is kept whole by `truncateLoop`. -/
+theorem truncLoop_all (size : Nat) (rs : List Nat) (l : Nat) (hp : AllPos rs)
+    (h : l + sum rs ≤ size) :
+    (truncLoop size l rs).2 = rs.length ∧ (truncLoop size l rs).1 = l + sum rs := by
+  induction rs generalizing l with
+  | nil => simp [truncLoop, sum]
+  | cons r rs ih =>
+    have hp' : AllPos rs := fun x hx => hp x (List.mem_cons_of_mem _ hx)
+    simp only [sum] at h
+    unfold truncLoop
+    by_cases h1 : l + r > size
+    · omega
+    · by_cases h2 : l + r = size
+      · have hz : sum rs = 0 := by omega
+        have := sum_zero_of_pos rs hp' hz
+        subst this
+        simp [h2, sum]
+      · have := ih (l + r) hp' (by omega)
+        simp only [h1, h2, ↓reduceIte, List.length_cons, sum]
+        omega
+
+/-- The three section loops keep everything when the whole message, compressed, with the OPT record
+reserved, fits `size`. -/
+theorem cutOver_all (size ol : Nat) (r : Resp) (ha : AllPos r.ans) (hn : AllPos r.ns)
+    (he : AllPos r.extra) (h : r.q + ol + sum r.ans + sum r.ns + sum r.extra ≤ size) :
+    cutOver size ol r = { ka := r.ans.length, kn := r.ns.length, ke := r.extra.length, tc := r.tc } := by
+  have e0 : ∀ xs : List Nat, AllPos xs → sum xs = 0 → xs.length = 0 := by
+    intro xs hp hz; rw [sum_zero_of_pos xs hp hz]; rfl
+  unfold cutOver
+  by_cases h0 : r.q + ol < size
+  · obtain ⟨a2, a1⟩ := truncLoop_all size r.ans (r.q + ol) ha (by omega)
+    simp only [h0, ↓reduceIte]
+    by_cases h1 : (truncLoop size (r.q + ol) r.ans).1 < size
+    · obtain ⟨n2, n1⟩ := truncLoop_all size r.ns (truncLoop size (r.q + ol) r.ans).1 hn (by omega)
+      simp only [h1, ↓reduceIte]
+      by_cases h2 : (truncLoop size (truncLoop size (r.q + ol) r.ans).1 r.ns).1 < size
+      · obtain ⟨e2, _⟩ := truncLoop_all size r.extra
+          (truncLoop size (truncLoop size (r.q + ol) r.ans).1 r.ns).1 he (by omega)
+        simp only [h2, ↓reduceIte, a2, n2, e2]
+        simp
+      · have hz : sum r.extra = 0 := by omega
+        have := e0 r.extra he hz
+        simp only [h2, ↓reduceIte, a2, n2, this]
+        simp
+    · have hz1 : sum r.ns = 0 := by omega
+      have hz2 : sum r.extra = 0 := by omega
+      have l1 := e0 r.ns hn hz1
+      have l2 := e0 r.extra he hz2
+      simp only [h1, ↓reduceIte, a2, l1, l2]
+      simp
+  · have hz0 : sum r.ans = 0 := by omega
+    have hz1 : sum r.ns = 0 := by omega
+    have hz2 : sum r.extra = 0 := by omega
+    have l0 := e0 r.ans ha hz0
+    have l1 := e0 r.ns hn hz1
+    have l2 := e0 r.extra he hz2
+    simp only [h0, ↓reduceIte, l0, l1, l2]
+    simp
+
 /-- The heart of the size bound: after `truncate`, the message (with the OPT record that was
 present during truncation) is no longer than the limit, unless header + question + OPT alone
 exceed it, in which case exactly those are left. -/
